@@ -1,14 +1,29 @@
 mod ast;
 mod core;
+mod pgen;
 mod grid;
 mod host;
 mod model;
+mod progexec;
+mod reduce;
 mod props;
 mod runner;
 mod worker;
 
 #[global_allocator]
 static ALLOC: host::CountingAlloc = host::CountingAlloc;
+
+struct StderrLogger;
+impl log::Log for StderrLogger {
+    fn enabled(&self, _: &log::Metadata) -> bool {
+        true
+    }
+    fn log(&self, r: &log::Record) {
+        eprintln!("[{}] {}", r.level(), r.args());
+    }
+    fn flush(&self) {}
+}
+static LOGGER: StderrLogger = StderrLogger;
 
 fn usage() -> ! {
     eprintln!("usage: verif run <ID> <quick|thorough> | verif replay <ID> <path> | verif worker <ID> [--excl a,b] | verif list");
@@ -44,6 +59,46 @@ fn main() {
             };
             let seed = std::env::var("VERIF_SEED").ok().and_then(|s| s.parse::<u64>().ok()).unwrap_or(0);
             std::process::exit(runner::run_check(p, tier, seed));
+        }
+        "tally" => {
+            let Some(p) = args.get(2).and_then(|id| props::find(id)) else { usage() };
+            let n = args.get(3).and_then(|s| s.parse().ok()).unwrap_or(500);
+            let seed = args.get(4).and_then(|s| s.parse().ok()).unwrap_or(1);
+            runner::tally(p, n, seed);
+        }
+        "compile" => {
+            // debug: compile a script with the host runtime, optionally call `fn main()`
+            worker::install_panic_hook();
+            if std::env::var("VERIF_LOG").is_ok() {
+                let _ = log::set_logger(&LOGGER);
+                log::set_max_level(log::LevelFilter::Info);
+            }
+            let src = std::fs::read_to_string(&args[2]).expect("read script");
+            let rt = host::build_runtime();
+            match host::compile(&rt, &src) {
+                Ok(mut pkg) => {
+                    println!("compiled ok");
+                    if let Ok(f) = pkg.get_function::<fn()>("main") {
+                        host::reset(vec![1, 2, 3, 4, 5, 6]);
+                        f.call();
+                        for e in host::take_log() {
+                            println!("  {}", model::show_ev(&e));
+                        }
+                        println!("live: {:?} anomalies: {:?}", host::live_count(), host::anomalies());
+                    }
+                }
+                Err(e) => println!("{e}"),
+            }
+        }
+        "reduce" => {
+            // debug: reduce a replay file in-process
+            worker::install_panic_hook();
+            let Some(p) = args.get(2).and_then(|id| props::find(id)) else { usage() };
+            let j: serde_json::Value = serde_json::from_str(&std::fs::read_to_string(&args[3]).unwrap()).unwrap();
+            let case = core::case_from_json(j.get("case").unwrap()).unwrap();
+            let sig = j.get("sig").and_then(|x| x.as_str()).unwrap_or("").to_string();
+            let mut w = p.worker(&[]);
+            println!("{}", w.reduce(&case, &sig));
         }
         "replay" => {
             let Some(p) = args.get(2).and_then(|id| props::find(id)) else { usage() };
